@@ -1324,4 +1324,87 @@ PROPS.update({
 })
 
 
+# ---------------------------------------------------------------------------
+# C13: directory ownership
+# ---------------------------------------------------------------------------
+
+def proj_c13(l):
+    if l.startswith(("open ", "dumpopen", "dumpdrop", "dropped", "read ")):
+        return l
+    if l.startswith("lockrace"):
+        return l.split(" #")[0]
+    if l.startswith("ev "):
+        return l  # a refused attempt must not produce any event
+    if l.startswith("ret"):
+        return ret_kind(l)
+    return None
+
+
+def oracle_c13(script, ig, mg):
+    fails = []
+    prim = primary_cmds(script)
+    owner = None  # "store" | "dump" | None, tracked from the implementation's own answers
+    for i, g in enumerate(ig):
+        c = prim[i] if i < len(prim) else ""
+        if c == "open":
+            if owner is not None:
+                if g.line != "open err locked" or g.evs:
+                    fails.append(("second-owner-admitted-or-refusal-touched-files",
+                                  {"group": i, "line": g.line, "events": g.evs, "owner": owner}))
+                    return fails
+            elif g.line == "open ok":
+                owner = "store"
+            elif g.line == "open err locked":
+                fails.append(("refused-although-nobody-owns-the-directory", {"group": i}))
+                return fails
+        elif c == "dumpopen":
+            if owner is not None:
+                if g.line != "dumpopen err locked" or g.evs:
+                    fails.append(("second-owner-admitted-or-refusal-touched-files",
+                                  {"group": i, "line": g.line, "events": g.evs, "owner": owner}))
+                    return fails
+            elif g.line == "dumpopen ok":
+                owner = "dump"
+            else:
+                fails.append(("refused-although-nobody-owns-the-directory", {"group": i, "line": g.line}))
+                return fails
+        elif c == "drop" and g.line.startswith("dropped") and owner == "store":
+            owner = None
+        elif c == "dumpdrop" and owner == "dump":
+            owner = None
+        elif c.startswith("lockrace"):
+            if not g.line.startswith("lockrace violations=0 "):
+                fails.append(("lock-race-violation", {"group": i, "line": g.line}))
+                return fails
+    return fails
+
+
+def scripts_c13(tier, rng):
+    n = 60 if tier == "quick" else 400
+    out, stats = [], {}
+    for i in range(n):
+        g = gen.HistGen(rng.fork(), max_ops=12, queries=(), weights=dict(append=50, purge=4, truncate=4))
+        lines = g.script() + ["flush 9000", "widle"]
+        r = rng.fork()
+        for _ in range(6 + r.below(8)):
+            lines.append(r.choice(["open", "dumpopen", "drop", "dumpdrop", "open", "dumpopen"]))
+        lines += ["drop", "dumpdrop"]
+        t, p, it = r.choice([(2, 0, 30), (4, 2, 20), (8, 1, 15), (3, 3, 12)])
+        lines += [f"lockrace {t} {p} {it}", "open", f"read 0 {U64MAX}", "dumpopen", "drop", "dumpopen", "open",
+                  "dumpdrop", "open", f"read 0 {U64MAX}"]
+        out.append((f"c13_{i}", lines))
+        for k, v in g.stats.items():
+            stats[k] = stats.get(k, 0) + v
+    return out, stats
+
+
+PROPS["C13"] = dict(
+    theorems=["c13_refused_open_is_noop", "c13_refused_dump_is_noop", "c13_attempt_while_owned_refused",
+              "c13_at_most_one_owner", "c13_after_drop_unlocked", "c13_free_lock_not_refused",
+              "c13_after_dump_drop_unlocked"],
+    gen=scripts_c13, project=proj_c13, oracle=oracle_c13, nontrivial=lambda s: len(s) > 8,
+    explanation="lock protocol; kernel flock semantics assumed and exercised by the lockrace monitor",
+    assumptions=OS_ASSUMPTIONS + ["flock(LOCK_EX|LOCK_NB) is exclusive per open file description (kernel)"])
+
+
 import crashprops  # noqa: E402,F401  (registers C03 C05 C10 C09, extends C07)
